@@ -113,13 +113,17 @@ def build(world, strata, prop, quick, rnd):
             cmz = zone * P.zonewidth + P.initialcm - P.zonewidth
             if not (-180 <= cmz <= 180):
                 continue
-            lat = rnd.choice([rnd.uniform(-79.9, 83.9), rnd.uniform(-79.9, 83.9), rnd.uniform(-1e-6, 1e-6), 83.9999, -79.9999, rnd.uniform(-10, 10)])
+            lat = rnd.choice([rnd.uniform(-79.9, 83.9), rnd.uniform(-79.9, 83.9), rnd.uniform(-1e-6, 1e-6), 83.9999, -79.9999, rnd.uniform(-10, 10),
+                              84.0, -80.0])          # the limits of the band themselves are inside the band
             dl = rnd.choice([rnd.uniform(-30, 30), rnd.uniform(-30, 30), rnd.uniform(-3, 3), rnd.uniform(-1e-7, 1e-7), 29.9999, -29.9999])
             lonv = cmz + dl
             if not (-180 <= lonv < 180):
-                continue
+                lonv = (lonv + 180.0) % 360.0 - 180.0      # an explicit zone on the far side of the +-180 meridian
             # the position is handed over as floats or as objects of each of the five angle classes in turn
-            evs.append(world.tma_event(lat, lonv, zone, ell, prj, "tma", args=["float", "dec", "hp", "gon", "dms", "ddm", "float"][k % 7]))
+            form = ["float", "dec", "hp", "gon", "dms", "ddm", "float"][k % 7]
+            if lat in (84.0, -80.0) and form not in ("float", "dec"):
+                form = "float"       # the other notations move the value by ~1e-14 deg, possibly out of the band: not the limit any more
+            evs.append(world.tma_event(lat, lonv, zone, ell, prj, "tma", args=form))
     if "ZONE" in kinds:
         step = 7 if quick else 1
         for pr in (("utm", gc.utm), ("zw8", gc.Projection(500000, 10000000, 0.9996, 8, -176))):
